@@ -325,4 +325,36 @@ func corrC01(r *Run) {
 					layoutRef(it.t.ID), coqValue(orig), coqHex(frame), coqHex(frame), o.term()))
 		}
 	}
+	// aliasing: what ReadPDU / Marshal hand out belongs to the caller — writing through its maps and slices must not change any
+	// later result, nor another PDU decoded from the same frame (harness/pdu_corpus.go: checkAliasing)
+	checkAliasing(r, "roundtrip", ts)
+	// dense sweeps (every message length x every way the short message can be written; every string length; every TLV length)
+	for _, part := range []string{"message", "strings", "tlvs"} {
+		for _, it := range denseSweep(ts, part) {
+			if strings.HasSuffix(it.what, "TLV length=0") || strings.HasSuffix(it.what, "udhi+nil-udh") ||
+				strings.HasSuffix(it.what, " udh-empty") || strings.HasSuffix(it.what, " udh-1") {
+				// outside C01's domain: an empty TLV value (the encoder leaves it out); the indicator set without a header, a header
+				// where no indicator exists ("a user-data header present exactly when the UDH indicator is set") — C12 marshals these
+				continue
+			}
+			orig := clonePDU(it.p)
+			r.SetReplay(replayValue(orig))
+			_, err, w, panicked, _ := marshalRec(it.p)
+			if err != nil || panicked || len(w.calls) != 1 {
+				continue // C12 owns Marshal's own verdicts
+			}
+			frame := w.calls[0]
+			o := readOnce(&chunkReader{data: frame, sched: []int{len(frame)}})
+			r.Count("dense/"+it.what, true, "dense-sweep/"+part)
+			in := "roundtrip (dense sweep: " + it.what + ") " + it.t.Name + " " + coqValue(orig) + " frame=" + shortHex(frame)
+			switch {
+			case o.Kind == "panic":
+				r.Fail("roundtrip/readpdu-panic/"+it.t.Name, "ReadPDU panicked on Marshal's output", in, o.Msg, "no panic")
+			case o.Kind != "ok":
+				r.Fail("roundtrip/readpdu-error/"+it.t.Name, "ReadPDU rejected Marshal's output", in, fmt.Sprintf("%s err=%v", o.Kind, o.Err), "success")
+			case canonNoLenID(o.PDU) != canonNoLenID(orig):
+				r.Fail("roundtrip/value/"+it.t.Name, "decoded PDU differs from the original", in, canonNoLenID(o.PDU), canonNoLenID(orig))
+			}
+		}
+	}
 }
